@@ -27,7 +27,24 @@ def drive(rng, tier):
     static = rng.random() < 0.2
     long_pool = HX.make_long_pool(rng) if rng.random() < 0.15 else None
     w = WX.Walker(prune, use_cache)
-    writes, m = HX.gen_writes(rng, rng.randint(4, 12 if tier == "quick" else 20), long_pool)
+    tiny = rng.random() < 0.3
+    writes, m = HX.gen_writes(rng, rng.randint(4, 12 if tier == "quick" else 20), long_pool, tiny=tiny)
+    collapse = None
+    if rng.random() < 0.3:
+        # collapse family: P+Q (a key that prefixes two others, tiny values so the branch below is embedded), P+Q+00, P+Q+10,
+        # and a sibling P' whose later deletion turns the branch at P into an extension spanning already-unexplored prefixes
+        P, Pp = rng.choice([(b"\x12", b"\x13"), (b"\x00", b"\x01"), (b"\x10\x11", b"\x10\x21")])
+        Q = bytes([rng.randrange(256)])
+        tv = lambda: bytes([rng.choice(HX.VALBYTES)]) * rng.randint(1, 2)
+        writes = [("set", P + Q, tv(), "meth"), ("set", P + Q + b"\x00", tv(), "meth"), ("set", P + Q + b"\x10", tv(), "meth"),
+                  ("set", Pp + b"\x55", tv() if rng.random() < 0.5 else HX.gen_value(rng), "meth")]
+        if rng.random() < 0.5:
+            writes.append(("set", HX.gen_key(rng), HX.gen_value(rng), "meth"))
+        m = {}
+        for x in writes:
+            HX.apply_model(m, x)
+        collapse = ("del", Pp + b"\x55", "meth")
+        static = False
     ops = [("trie", x) for x in writes]
     outs = [w.step(o) for o in ops]
     stable = dict(m)                 # keys whose value has not changed since the walk began
@@ -36,7 +53,15 @@ def drive(rng, tier):
     done = False
     while not done and stats["steps"] < MAX_STEPS:
         r = rng.random()
-        if not static and r < 0.3:
+        if collapse is not None and stats["steps"] >= rng.choice([2, 2, 3]):
+            wr = collapse
+            collapse = None
+            op = ("trie", wr)
+            HX.apply_model(m, wr)
+            if wr[1] in stable:
+                del stable[wr[1]]
+            stats["mut"] += 1
+        elif not static and r < 0.3:
             # mutate
             if m and rng.random() < 0.45:
                 wr = ("del", rng.choice(sorted(m)), "meth")      # collapses branches under explored prefixes
